@@ -122,7 +122,7 @@ def _base_class(kind):
             "randKary": RandomKaryPartition}[kind]
 
 
-def make_partition_class(kind, K=3, rng=None, observer=None):
+def make_partition_class(kind, K=3, rng=None, observer=None, pre_observer=None):
     """Subclass of the real partition class that (i) accepts the (domain, node) constructor
     signature the algorithms use while forwarding K, (ii) numbers nodes in creation order
     (`_vid`), keeps every node ever created in `_all`, and (iii) logs each make_children call
@@ -133,6 +133,8 @@ def make_partition_class(kind, K=3, rng=None, observer=None):
     class Instr(base):
         _kind = kind
         _K = K
+        _observer = observer
+        _pre_observer = pre_observer
 
         def __init__(self, domain=None, node=P_node):
             if kind in ("kary", "randKary"):
@@ -155,6 +157,8 @@ def make_partition_class(kind, K=3, rng=None, observer=None):
                 return nd
 
             mark = len(rng.log) if rng is not None else 0
+            if Instr._pre_observer is not None:
+                Instr._pre_observer(self, parent, bool(newlayer))
             self.node = factory
             try:
                 base.make_children(self, parent, newlayer)
@@ -172,8 +176,8 @@ def make_partition_class(kind, K=3, rng=None, observer=None):
                         "dim": dim, "pts": pts, "created": [c._vid for c in created],
                         "was_leaf": None}
                 self._calls.append(call)
-                if observer is not None:
-                    observer(self, parent, call)
+                if Instr._observer is not None:
+                    Instr._observer(self, parent, call)
 
     Instr.__name__ = base.__name__
     Instr.__qualname__ = base.__qualname__
@@ -261,4 +265,29 @@ def exc_name(e):
         return "NoneDeref"
     if isinstance(e, ValueError):
         return "ValueError"
+    if type(e).__name__ == "HangError":
+        return "OutOfFuel"
     return type(e).__name__
+
+
+# ---------------------------------------------------------------- hang safety
+import signal
+
+
+class HangError(Exception):
+    """an implementation call exceeded its time budget (treated as 'never returns')"""
+
+
+def _on_alarm(signum, frame):
+    raise HangError("call exceeded its time budget")
+
+
+def guarded(fn, *args, budget=3.0):
+    """Run one implementation call under a wall-clock budget (SIGALRM; main thread only)."""
+    old = signal.signal(signal.SIGALRM, _on_alarm)
+    signal.setitimer(signal.ITIMER_REAL, budget)
+    try:
+        return fn(*args)
+    finally:
+        signal.setitimer(signal.ITIMER_REAL, 0)
+        signal.signal(signal.SIGALRM, old)
